@@ -82,6 +82,11 @@ Qed.
 Lemma neg_table_ok : forallb (fun i => bd_quo P36 (pow10 (Z.of_nat i) * P36) =? 10 ^ (36 - Z.of_nat i)) (seq 0 37) = true.
 Proof. vm_compute. reflexivity. Qed.
 
+(* the table of positive powers agrees with BigDec.PowerInteger as written, on every exponent reachable from ticks *)
+Lemma big_powers_as_written :
+  forallb (fun i => bd_power_integer (bd_from_int 10) (Z.of_nat i) =? nth i big_powers_of_ten 0) (seq 0 77) = true.
+Proof. vm_compute. reflexivity. Qed.
+
 Lemma pow_ten_big_spec e : -36 <= e <= 308 -> pow_ten_big e = Some (10 ^ (36 + e)).
 Proof.
   intros H. unfold pow_ten_big, big_powers_of_ten, big_neg_powers_of_ten.
